@@ -346,17 +346,14 @@ func pegBuild(r *Repo, g *pgrammar, exprRule, text string) (norm string, ok bool
 	fm := newFrontModel(r)
 	fm.call("AddRule", "R")
 	for _, a := range tr {
-		for _, cs := range actionCalls(a.code) {
+		calls, u := concreteCalls(r, g, a.code, a.text)
+		if u != "" {
+			return "", false, u
+		}
+		for _, cs := range calls {
 			var args []Value
 			for _, x := range cs.Args {
-				x = strings.TrimSpace(x)
-				if x == "text" {
-					args = append(args, a.text)
-				} else if s, err := strconv.Unquote(x); err == nil {
-					args = append(args, s)
-				} else {
-					return "", false, "builder argument " + x + " is neither text nor a string literal"
-				}
+				args = append(args, x)
 			}
 			fm.call(cs.Method, args...)
 		}
@@ -595,18 +592,15 @@ func grammarDifferential(c *Check, r *Repo, g *pgrammar) {
 		pkg, typ := "", ""
 		alias := ""
 		for _, a := range tr {
-			for _, cs := range actionCalls(a.code) {
+			calls, u := concreteCalls(r, g, a.code, a.text)
+			if u != "" {
+				und = u
+				return "", false
+			}
+			for _, cs := range calls {
 				var args []Value
 				for _, x := range cs.Args {
-					x = strings.TrimSpace(x)
-					if x == "text" {
-						args = append(args, a.text)
-					} else if s, err := strconv.Unquote(x); err == nil {
-						args = append(args, s)
-					} else {
-						und = "builder argument " + x + " is neither text nor a string literal"
-						return "", false
-					}
+					args = append(args, x)
 				}
 				switch cs.Method {
 				case "AddPackage":
